@@ -81,18 +81,31 @@ impl C06 {
         }
         unreachable!()
     }
-    fn inner_strings(&self) -> u64 {
-        let (sl, al) = if self.tier == Tier::Quick { (2, 5) } else { (3, 6) };
-        faults::short_string_count(sl) + faults::alphabet_string_count(al)
+    /// string set per (block, state): in thorough the 3-byte strings go to the Data state (and state 0 for the
+    /// share-control entry); the other states get all <=2-byte strings and the 6-letter alphabet strings
+    fn strs(&self, block: &str, state: u8) -> faults::Strs {
+        faults::Strs::for_tier(self.tier, state == 5 || (block == "inner-slow" && state == 0))
     }
-    fn inner_string(&self, i: u64) -> Vec<u8> {
-        let sl = if self.tier == Tier::Quick { 2 } else { 3 };
-        let n = faults::short_string_count(sl);
-        if i < n {
-            faults::short_string(i)
-        } else {
-            faults::alphabet_string(i - n)
+    fn states_of(&self, block: &str) -> Vec<u8> {
+        match block {
+            "inner-slow" => self.slow_states(),
+            "inner-mcs" => vec![0, 5],
+            "inner-fast" => vec![5, 0, 2],
+            _ => vec![5, 0],
         }
+    }
+    fn block_count(&self, block: &str) -> u64 {
+        self.states_of(block).iter().map(|s| self.strs(block, *s).count()).sum()
+    }
+    fn block_case(&self, block: &str, mut i: u64) -> (u8, Vec<u8>) {
+        for st in self.states_of(block) {
+            let s = self.strs(block, st);
+            if i < s.count() {
+                return (st, s.get(i));
+            }
+            i -= s.count();
+        }
+        unreachable!()
     }
     fn slow_states(&self) -> Vec<u8> {
         if self.tier == Tier::Quick {
@@ -136,27 +149,19 @@ impl C06 {
                 (state, bytes, json!({"block": b, "state": state, "deviations": [d1, d2]}), c1 && c2)
             }
             "inner-slow" => {
-                let n = self.inner_strings();
-                let state = self.slow_states()[(i / n) as usize];
-                let s = self.inner_string(i % n);
+                let (state, s) = self.block_case(b, i);
                 (state, sdi(&s), json!({"block": b, "state": state, "share_control_level_bytes": vref::bytes::hex(&s)}), true)
             }
             "inner-mcs" => {
-                let n = self.inner_strings();
-                let state = [0u8, 5][(i / n) as usize];
-                let s = self.inner_string(i % n);
+                let (state, s) = self.block_case(b, i);
                 (state, framing::tpkt(&framing::x224_dt(&s)), json!({"block": b, "state": state, "mcs_level_bytes": vref::bytes::hex(&s)}), true)
             }
             "inner-frame" => {
-                let n = self.inner_strings();
-                let state = [5u8, 0][(i / n) as usize];
-                let s = self.inner_string(i % n);
+                let (state, s) = self.block_case(b, i);
                 (state, s.clone(), json!({"block": b, "state": state, "raw_frame_bytes": vref::bytes::hex(&s)}), true)
             }
             "inner-fast" => {
-                let n = self.inner_strings();
-                let state = [5u8, 0, 2][(i / n) as usize];
-                let s = self.inner_string(i % n);
+                let (state, s) = self.block_case(b, i);
                 (state, framing::fastpath(0, &s, false), json!({"block": b, "state": state, "fast_path_payload": vref::bytes::hex(&s)}), true)
             }
             _ => unreachable!(),
@@ -182,8 +187,7 @@ impl Prop for C06 {
             }
         }
         let fs = FaultSpace::new(pdu_kinds(), tier);
-        let n = self.inner_strings();
-        let mut blocks = vec![("single", 6 * fs.total()), ("inner-slow", self.slow_states().len() as u64 * n), ("inner-mcs", 2 * n), ("inner-fast", 3 * n), ("inner-frame", 2 * n)];
+        let mut blocks = vec![("single", 6 * fs.total()), ("inner-slow", self.block_count("inner-slow")), ("inner-mcs", self.block_count("inner-mcs")), ("inner-fast", self.block_count("inner-fast")), ("inner-frame", self.block_count("inner-frame"))];
         if tier == Tier::Thorough {
             let r = fs.reduced_count();
             blocks.push(("pairs", 2 * r * r));
@@ -202,7 +206,7 @@ impl Prop for C06 {
         d
     }
     fn rule(&self) -> String {
-        "cases = (client state 0..5 reached by the honest activation prefix, one server frame with <=1 deviation (<=2 thorough)). PDU kinds: demand-active (Windows capability list and minimal), deactivate-all, synchronize, control, font-map, set-error-info, an unparsed data PDU, two share PDUs in one frame, a confirm-active sent by the server, fast-path bitmap (raw + compressed-with-header rectangles), fast-path pointer/synchronize updates, unknown fast-path codes. Deviations: every byte offset x value set (12 boundary values + honest+-1; all 256 in thorough), every offset as 16/32-bit field in both byte orders x boundary set, every truncation, extensions {+1,+2,+1500}; [inner-*] every byte string of length <=2 (<=3) and every string of length 3..5 (..6) over 8 boundary bytes at the MCS, share-control (states 0,1,5 in quick, all six in thorough) and fast-path parser entries, and as raw unframed bytes at the frame reader; [pairs, thorough] all pairs of {byte:=00, byte:=FF, truncate} over all offsets, in states 0 and 5. After the hostile frame an honest PDU is read to expose desynchronisation loops. Non-trivial: the frame differs from the honest one.".into()
+        "cases = (client state 0..5 reached by the honest activation prefix, one server frame with <=1 deviation (<=2 thorough)). PDU kinds: demand-active (Windows capability list and minimal), deactivate-all, synchronize, control, font-map, set-error-info, an unparsed data PDU, two share PDUs in one frame, a confirm-active sent by the server, fast-path bitmap (raw + compressed-with-header rectangles), fast-path pointer/synchronize updates, unknown fast-path codes. Deviations: every byte offset x value set (12 boundary values + honest+-1; all 256 in thorough), every offset as 16/32-bit field in both byte orders x boundary set, every truncation, extensions {+1,+2,+1500}; [inner-*] every byte string of length <=2 (<=3 in thorough for the Data state, and state 0 at the share-control entry) and every string of length 3..5 (..6) over 8 boundary bytes at the MCS, share-control (states 0,1,5 in quick, all six in thorough) and fast-path parser entries, and as raw unframed bytes at the frame reader; [pairs, thorough] all pairs of {byte:=00, byte:=FF, truncate} over all offsets, in states 0 and 5. After the hostile frame an honest PDU is read to expose desynchronisation loops. Non-trivial: the frame differs from the honest one.".into()
     }
     fn assumptions(&self) -> Vec<String> {
         vec!["memory rule: single request > 1 MiB or peak > 16 MiB + 1024 x bytes received".into(), "the six states are reached through RdpClient::read on the raw stack (hooks H3/H4); TLS record handling is not part of this property".into()]
